@@ -382,15 +382,17 @@ fn corpus(a: &Args, seed: u64, limit: usize, malformed: bool) -> Vec<(String, Ve
         let stride = (cases.len() / limit.max(1)).max(1);
         for (ci, case) in cases.iter().enumerate().step_by(stride) {
             let mut r = Rng::new(seed.wrapping_mul(31337).wrapping_add(ci as u64));
+        // variant choices are keyed on a hash of the case index: a plain modulus aliases with the stride that samples the cases
+        let vi = crate::mix(ci);
             let dm = delim_map(&mut r);
             let mut names = Names::new();
             let mut mnames = Names::new();
             let toks = conc_toks(&case["toks"], &mut names, &mut mnames, &mut r, &dm);
-            let bytes = encode(0x0101, if ci % 2 == 0 { HDR_CODES[(ci / 2) % HDR_CODES.len()] } else { hdr_code(&mut r) }, r.next() as u32, &toks);
+            let bytes = encode(0x0101, if vi % 2 == 0 { HDR_CODES[(vi / 2) % HDR_CODES.len()] } else { hdr_code(&mut r) }, r.next() as u32, &toks);
             if bytes.len() > 400 {
                 continue;
             }
-            if malformed && ci % 3 == 1 {
+            if malformed && vi % 3 == 1 {
                 let (mb, what) = mutate(&bytes, &mut r);
                 out.push((format!("w{}-mut({})", ci, what), mb));
             } else {
